@@ -7,6 +7,7 @@
 #include <dlfcn.h>
 #include <stdlib.h>
 #include <sys/stat.h>
+#include <time.h>
 #include <unistd.h>
 
 ssize_t write(int fd, const void *buf, size_t count)
@@ -29,4 +30,26 @@ ssize_t write(int fd, const void *buf, size_t count)
 		}
 	}
 	return real(fd, buf, count);
+}
+
+/* With VERIF_WALLCLOCK_STEP=<n> the wall clock (CLOCK_REALTIME, gettimeofday is not touched) is stepped
+ * back by 5 s after its n-th reading, as an NTP step or a VM restore does.  CLOCK_MONOTONIC and the other
+ * clocks are passed through: a program that timestamps with a monotonic clock does not notice. */
+int clock_gettime(clockid_t id, struct timespec *ts)
+{
+	static int (*real)(clockid_t, struct timespec *) = NULL;
+	static long after = -2;
+	static long nread = 0;
+	if (!real)
+		real = (int (*)(clockid_t, struct timespec *)) dlsym(RTLD_NEXT, "clock_gettime");
+	if (after == -2) {
+		const char *e = getenv("VERIF_WALLCLOCK_STEP");
+		after = e ? atol(e) : -1;
+	}
+	int ret = real(id, ts);
+	if (ret == 0 && after >= 0 && id == CLOCK_REALTIME) {
+		if (__atomic_add_fetch(&nread, 1, __ATOMIC_RELAXED) > after)
+			ts->tv_sec -= 5;
+	}
+	return ret;
 }
